@@ -114,6 +114,19 @@ CLAIMED = {
          "changes nothing; positive durations and the number of annotators are preserved. Tie: corpus_shuffle over magnitudes x annotators x flag "
          "combinations with np.random.* recorded; the extracted model's replay must equal the library's corpus; output-level clauses checked directly.",
          TB + "PARTIAL: laws of the primitives; count-based clauses carry a freshness side condition; class constants re-read each run."),
+ "C06": ("4/C06", "schedule-independence theorem + trace validation under forced schedules, real pools and hash seeds",
+         "Theorems: for pure jobs with draws on the submitting thread, every execution order of the submitted jobs (any permutation, with re-executions) "
+         "yields the sequential results, order and random state; sensitivity: with draws inside the jobs two schedules differ. Tie: the pool of "
+         "compute_gamma / gamma_cat / gamma_k is replaced by a recording executor forcing FIFO / LIFO / random / delayed orders on worker threads and by real "
+         "pools of 1, 2, 16 workers; np.random.* recorded: every draw on the submitting thread, collection in submission order, inputs unchanged, and all "
+         "results bit-identical across schedules, repetition, and subprocesses with other PYTHONHASHSEED values.",
+         TB + "PARTIAL: races inside native code and third-party nondeterminism cannot be exhibited by the model."),
+ "C14": ("4/C14", "separation / confinement theorems on a heap model + before/after snapshots and mutation of derived objects",
+         "Theorems: every repaired constructor (new, copy, corpus_from_reference) yields a separated world; in a separated world a write through one "
+         "continuum changes no other's view; the ORIGINAL corpus_from_reference is refuted (aliasing, repaired by a fix commit). Tie: ~25 entry points "
+         "with deep snapshots of every argument before / after; every derived continuum mutated and its source re-read (and conversely); container "
+         "identities pairwise distinct; random histories of new / copy / derive / add on real objects and the extracted heap model.",
+         TB + "PARTIAL: purity of the Python computations is only checked per explored call."),
 }
 
 checks = []
